@@ -6,6 +6,7 @@ import SqlairModel.Spec.L2
 import SqlairProofs.NoPanic.Defs
 import Driver.Json
 import Driver.L2Rows
+import SqlairModel.Spec.DriverClauses
 
 open Lean Sqlair
 
@@ -113,10 +114,6 @@ def handleL2 (j : Json) : Except String Json := do
         | .ok r, .ok k => some (r, k)
         | _, _ => none
       | _ => none
-    let kindProps (l : List OSeg) : List String :=
-      (if l.any (fun s => s.kind == .member || s.kind == .slice) then ["C03"] else []) ++
-      (if l.any (fun s => s.kind == .astInsert || s.kind == .colInsert || s.kind == .basicInsert) then ["C04"] else []) ++
-      (if l.any (fun s => s.kind == .output) then ["C05"] else [])
     let parserAff : List String :=
       if (getBool j "noParserCheck").toOption.getD false then [] else
       match parse (mkEnv q qcls.toArray) with
@@ -130,17 +127,18 @@ def handleL2 (j : Json) : Except String Json := do
     -- a statement the model prepares (the iff-theorems of `Typed`: it is well typed) that
     -- Prepare rejects: the expansions the properties promise for its expressions are not
     -- produced at all; this input fails the properties of the kinds of expression it holds
-    let lost : List String :=
-      if (match m.prep with | .ok _ => true | .error _ => false) && !o.prepOk then kindProps segs else []
+    -- a statement the model prepares (the iff-theorems of `Typed`: it is well typed) that
+    -- Prepare rejects: the expansions the properties promise for its expressions are not
+    -- produced at all; this input fails the properties of the kinds of expression it holds
+    -- (`lostProps`, `inputsCounted`: Spec/DriverClauses.lean, sound by `lostProps_model`,
+    -- `inputsCounted_model`)
+    let lost : List String := lostProps m o segs
     -- every input expression the reference parser reads in the text got its argument
     -- (statements whose expressions are member inputs only)
     let inputsCounted : Bool :=
       if (getBool j "noParserCheck").toOption.getD false then true else
       match parse (mkEnv q qcls.toArray) with
-      | .ok msegs =>
-        let exprs := (msegs.map (Seg.toOSeg q)).filter (·.kind != .bypass)
-        if !(o.prepOk && o.bindOk) || o.mode == "none" || !exprs.all (·.kind == .member) then true
-        else o.params.length == exprs.length
+      | .ok msegs => Sqlair.inputsCounted ((msegs.map (Seg.toOSeg q)).filter (·.kind != .bypass)) o
       | .error _ => true
     let aff := (affected m o ++ (if wrongReject then ["C07"] else []) ++ parserAff ++
       (if prepDiffers then kindProps segs else [])).eraseDups
